@@ -190,6 +190,21 @@ Proof.
   - unfold ng_unmodelled in H. cbn [bind] in H. discriminate H.
 Qed.
 
+Definition doc_shape (i' : ir) : Prop :=
+  ir_name i' = FNone /\ ir_type i' = Has (L "static") /\ ir_internal i' = None
+  /\ (ir_returns i' = FNone \/ exists g, ir_returns i' = Has g).
+
+Lemma parse_dot_shape : forall t a b c i', parse_dot_docstring ng_unmodelled t a b c = Ok i' -> doc_shape i'.
+Proof.
+  intros t a b c i' H. unfold parse_dot_docstring, parse_docstring in H.
+  destruct t as [|ch0 t]; [injection H as H; subst i'; repeat split; left; reflexivity|].
+  match type of H with match ?x with Rest => _ | Google => _ | Numpydoc => _ end = _ => destruct x end.
+  - unfold parse_rest in H. binv H. binv H. binv H. binv H. injection H as H. subst i'.
+    unfold ir_of_parts. repeat split. cbn [ir_returns]. destruct (snd a3); [right; eexists; reflexivity|left; reflexivity].
+  - unfold ng_unmodelled in H. cbn [bind] in H. discriminate H.
+  - unfold ng_unmodelled in H. cbn [bind] in H. discriminate H.
+Qed.
+
 Lemma parse_ng_internal : forall style fl t i', DocParseNG.parse_ng style fl t = Ok i' -> ir_internal i' = None.
 Proof.
   intros style fl t i' H. unfold DocParseNG.parse_ng in H.
@@ -507,3 +522,363 @@ Proof.
     destruct (filter documented (ir_params i)); [destruct Hf|discriminate].
 Qed.
 End ClassLink.
+
+(* ------------------------------------------------------------------ 4c. emit.class_ and the remnant *)
+
+Lemma fold_params_clear : forall i, ir_params (class_fold_returns (clear_internal i)) = ir_params (class_fold_returns i).
+Proof. intros [n t d ps r b]. unfold class_fold_returns, clear_internal. cbn [ir_returns]. destruct r; reflexivity. Qed.
+
+(* with emit_call off, emit.class_ writes the same class for a description that carries the remnant (the body is
+   rewritten by RewriteName, which succeeds, and then dropped) *)
+Lemma emit_class_remnant : forall pt i cn bs ds ww tds s,
+    internal_ok i = true ->
+    emit_class pt (clear_internal i) false cn bs ds ww tds = Ok (s, clear_internal i) ->
+    emit_class pt i false cn bs ds ww tds = Ok (s, i).
+Proof.
+  intros pt i cn bs ds ww tds s Hint H. unfold emit_class in *.
+  rewrite fold_params_clear in H. cbn [clear_internal ir_internal ir_returns ir_params] in H.
+  destruct (internal_ok_cases i Hint) as [E|[it [fnm [Ei [Eb _]]]]].
+  - rewrite E.
+    destruct (od_keys (ir_params i)) as [|k ks]; cbn [bind] in *; destruct tds as [text|e]; cbn [bind] in *; try discriminate H;
+      destruct (map_outcome _ (ir_params (class_fold_returns i))) as [attrs|e]; cbn [bind] in *; try discriminate H;
+      injection H as H; subst s; reflexivity.
+  - rewrite Ei, Eb. unfold argparse_remnant, rewrite_body.
+    cbn [forallb rewritable_stmt rewritable_opt rewritable_expr andb].
+    destruct (od_keys (ir_params i)) as [|k ks]; cbn [bind] in *; destruct tds as [text|e]; cbn [bind] in *; try discriminate H;
+      destruct (map_outcome _ (ir_params (class_fold_returns i))) as [attrs|e]; cbn [bind] in *; try discriminate H;
+      injection H as H; subst s; reflexivity.
+Qed.
+
+Lemma filter_attrs : forall xs,
+    filter (fun s => negb (is_assignment s)) (map ParseAstFacts.attr_stmt xs ++ []) = [].
+Proof. induction xs as [|x xs IH]; [reflexivity|]. cbn [map app filter ParseAstFacts.attr_stmt is_assignment negb]. exact IH. Qed.
+
+Lemma norm_params_C02_complete : forall ps,
+    forallb (fun kv => complete_entry (snd kv)) ps = true -> norm_params_C02 ps = ps.
+Proof.
+  induction ps as [|[n g] ps IH]; intros H; [reflexivity|].
+  cbn [forallb snd] in H. apply andb_true_iff in H. destruct H as [Hg H].
+  unfold norm_params_C02 in *. cbn [map fst snd]. rewrite (IH H). f_equal. f_equal.
+  destruct (complete_entry_shape g Hg) as [c [r [t [v [E Hv]]]]]. subst g.
+  unfold norm_param_C02, prose_fld, prose_fld_of, prose_of, canon_default, zero_default_norm_param.
+  cbn [g_doc g_typ g_default]. rewrite Hv. reflexivity.
+Qed.
+
+Lemma doc_link_ok_clear : forall w e ww i, doc_link_ok w e ww (clear_internal i) = doc_link_ok w e ww i.
+Proof. intros w e ww [n t d ps [| |g] b]; reflexivity. Qed.
+
+Lemma class_text_clear : forall w e ww i,
+    class_docstring_text w e ww (clear_internal i) = class_docstring_text w e ww i.
+Proof.
+  intros w e ww i. unfold class_docstring_text.
+  assert (X : forall x : outcome (str * ir), (do r <- x; Ok (fst r)) = C08Facts.text_of x)
+    by (intros [[t j]|err]; reflexivity).
+  rewrite !X. apply C08Facts.to_docstring_text_lemma; destruct i as [n t d ps r b];
+    unfold class_fold_returns, clear_internal; cbn [ir_returns ir_name ir_type ir_doc ir_params ir_internal];
+    destruct r; reflexivity.
+Qed.
+
+(* ------------------------------------------------------------------ 5c. the law of the class kind *)
+
+Theorem conv_class_closed : forall o i, closed_dom o i = true ->
+    exists i', conv_class o i = Ok i' /\ core_eq i i'
+               /\ (ir_name i' = FNone /\ ir_type i' = Has (L "static") /\ ir_returns i' = FNone
+                   /\ ir_internal i' = Some (mkInternal [] (Has (ce_cn o)) (Has (L "cls")))).
+Proof.
+  intros o i H. destruct (closed_dom_inv o i H) as [_ [Hc [_ [_ [_ [Hg [Hl [_ Hi]]]]]]]].
+  destruct (complete_inv i Hc) as [_ [_ [Hf Hnr]]].
+  set (i0 := clear_internal i) in *.
+  assert (Hl0 : doc_link_ok (ce_w o) (ce_edd o) (ce_ww o) i0 = true).
+  { unfold i0. rewrite doc_link_ok_clear. exact Hl. }
+  destruct (ClassLink.doc_link_sum _ _ _ i0 Hg Hl0) as [text [d [Ht [Hd [Ha Hsum]]]]].
+  destruct (C02Compose.C02_ast_partial_lemma (ce_pt o) i0 (ce_cn o) (ce_bases o) (ce_decos o) (ce_ww o) text d
+              (ce_it o) (ce_pww o) Hg Ha) as [s [i' [Hem [Hpa [Hps [Hrs _]]]]]].
+  (* the shape of the emitted class *)
+  destruct (C02Compose.guard_C02_ast_inv i0 Hg) as [Hdom [_ [Hpok [Hrok Hbody]]]].
+  destruct (C02Compose.C02_domain_facts i0 Hdom) as [_ [Hrt _]].
+  pose proof (C02Compose.forall_folded_ok i0 Hpok Hrok) as Hall.
+  destruct (C02Compose.map_outcome_attrs (ce_pt o) _ Hall) as [xs [Hxs _]].
+  rewrite <- (C02Compose.fold_returns_params i0 Hrt) in Hxs.
+  pose proof (C02Compose.emit_class_ok (ce_pt o) i0 (ce_cn o) (ce_bases o) (ce_decos o) (ce_ww o) text _ Hbody Hxs) as Hem2.
+  rewrite Hem in Hem2. injection Hem2 as Hs. subst s.
+  rewrite C02Compose.parse_class_on_emitted in Hpa. binv Hpa. binv Hpa. injection Hpa as Hpa.
+  assert (Hshape : ir_name d = FNone /\ ir_type d = Has (L "static")).
+  { unfold class_docstring_ir in Hd. binv Hd. destruct (parse_dot_shape _ _ _ _ _ Hd) as [Hn [Hty _]]. split; assumption. }
+  exists i'. split; [|split].
+  - unfold conv_class.
+    assert (Ht' : class_docstring_text (ce_w o) (ce_edd o) (ce_ww o) i = Ok text).
+    { rewrite <- Ht. unfold i0. symmetry. apply class_text_clear. }
+    rewrite Ht'. cbn [bind].
+    rewrite (emit_class_remnant _ i _ _ _ _ _ _ Hi Hem). cbn [bind fst]. rewrite Hd.
+    rewrite C02Compose.parse_class_on_emitted. rewrite Ha0. cbn [bind]. rewrite Ha1. cbn [bind]. f_equal. exact Hpa.
+  - subst i'. cbn [ir_params ir_returns] in Hps, Hrs. constructor; cbn [ir_doc ir_params ir_returns ir_internal].
+    + rewrite Hsum. reflexivity.
+    + rewrite Hps. unfold i0. cbn [clear_internal ir_params]. apply norm_params_C02_complete. exact Hf.
+    + intros g E. rewrite Hrs in E. unfold norm_returns_C02, i0 in E. cbn [clear_internal ir_returns] in E.
+      destruct (ir_returns i) as [| |g0] eqn:Er; try discriminate E. apply (Hnr g0). exact Er.
+    + unfold internal_ok. cbn [ir_internal in_body]. rewrite filter_attrs. reflexivity.
+  - subst i'. cbn [ir_params ir_returns] in Hps, Hrs. cbn [ir_name ir_type ir_returns ir_internal].
+    destruct Hshape as [Hn Hty]. rewrite filter_attrs. split; [exact Hn|]. split; [exact Hty|]. split; [|reflexivity].
+    rewrite Hrs. unfold norm_returns_C02, i0. cbn [clear_internal ir_returns].
+    destruct (ir_returns i) as [| |g0] eqn:Er; try reflexivity. exfalso. apply (Hnr g0). exact Er.
+Qed.
+
+Theorem law_class : forall o, kind_law (conv_model o) (closed_dom o) KClass.
+Proof.
+  intros o i H. destruct (conv_class_closed o i H) as [i' [Hc [Hce _]]]. exists i'. split; [exact Hc|].
+  split; [exact (core_eq_preserved o i _ H Hce) | exact (closed_dom_core_eq o i _ H Hce)].
+Qed.
+
+(* ------------------------------------------------------------------ 6. every chain over the closed kinds *)
+
+Lemma closed_kind_law : forall o k, env_ok o = true -> closed_kind k = true -> kind_law (conv_model o) (closed_dom o) k.
+Proof.
+  intros o k He Hk. destruct k; try discriminate Hk;
+    [apply law_rest | apply law_numpydoc | apply law_google | apply law_class | apply law_argparse; exact He].
+Qed.
+
+Theorem chain_closed : forall o cs, env_ok o = true -> forallb closed_kind cs = true ->
+    forall i, closed_dom o i = true ->
+    exists i', chain (conv_model o) cs i = Ok i' /\ preserved i i' = true /\ closed_dom o i' = true.
+Proof.
+  intros o cs He Hcs.
+  apply (C05Facts.chain_preserved ir kind preserved (conv_model o) (closed_dom o)
+                                  C05Facts.preserved_refl C05Facts.preserved_trans cs).
+  intros k Hk. rewrite forallb_forall in Hcs. exact (closed_kind_law o k He (Hcs k Hk)).
+Qed.
+
+Lemma closed_kind_incl : forall cs, incl cs closed_kinds -> forallb closed_kind cs = true.
+Proof.
+  intros cs H. apply forallb_forall. intros k Hk. apply H in Hk.
+  unfold closed_kinds in Hk. cbn [In] in Hk. destruct Hk as [E|[E|[E|[E|[E|[]]]]]]; subst k; reflexivity.
+Qed.
+
+(* in the shape of C05.C05_chain_preserved: chains drawn from closed_kinds *)
+Corollary chain_closed_incl : forall o cs, env_ok o = true -> incl cs closed_kinds ->
+    forall i, closed_dom o i = true ->
+    exists i', chain (conv_model o) cs i = Ok i' /\ preserved i i' = true /\ closed_dom o i' = true.
+Proof. intros o cs He Hcs. apply chain_closed; [exact He|apply closed_kind_incl; exact Hcs]. Qed.
+
+Corollary chain_closed_no_swap : forall o cs, env_ok o = true -> forallb closed_kind cs = true ->
+    forall i, closed_dom o i = true ->
+    exists i', chain (conv_model o) cs i = Ok i'
+               /\ List.length (ir_params i) = List.length (ir_params i')
+               /\ forall k n g, nth_error (ir_params i) k = Some (n, g) ->
+                  exists g', nth_error (ir_params i') k = Some (n, g')
+                             /\ C01Spec.same_typ g g' = true /\ C01Spec.same_prose g g' = true
+                             /\ same_default_ir (g_default g) (g_default g') = true.
+Proof.
+  intros o cs He Hcs i Hi. destruct (chain_closed o cs He Hcs i Hi) as [i' [Hc [Hp _]]].
+  exists i'. split; [exact Hc|]. exact (C05Facts.preserved_no_swap i i' Hp).
+Qed.
+
+(* on the domain a chain even returns summary and parameters unchanged *)
+Corollary chain_closed_exact : forall o cs, env_ok o = true -> forallb closed_kind cs = true ->
+    forall i, closed_dom o i = true ->
+    exists i', chain (conv_model o) cs i = Ok i' /\ ir_doc i' = ir_doc i /\ ir_params i' = ir_params i
+               /\ (forall g, ir_returns i' <> Has g).
+Proof.
+  intros o cs He Hcs i Hi. destruct (chain_closed o cs He Hcs i Hi) as [i' [Hc [Hp _]]].
+  exists i'. split; [exact Hc|]. destruct (closed_dom_inv o i Hi) as [_ [Hco _]].
+  exact (complete_preserved_eq i i' Hco Hp).
+Qed.
+
+Lemma closed_dom_in_region : forall o i, closed_dom o i = true -> chain_safe closed_kinds i = true.
+Proof. intros o i H. apply (closed_dom_inv o i H). Qed.
+
+(* ------------------------------------------------------------------ 7. closed forms; C08 *)
+
+Definition docstring_out (i : ir) : ir := mkIR FNone (Has (L "static")) (ir_doc i) (ir_params i) FNone None.
+
+Definition class_out (o : cenv) (i : ir) : ir :=
+  mkIR FNone (Has (L "static")) (ir_doc i) (ir_params i) FNone
+       (Some (mkInternal [] (Has (ce_cn o)) (Has (L "cls")))).
+
+(* N_k: what one pass of kind k returns on the domain *)
+Definition out_model (o : cenv) (k : kind) (i : ir) : ir :=
+  match k with
+  | KRest | KNumpydoc | KGoogle => docstring_out i
+  | KClass => class_out o i
+  | KArgparse => argparse_out o i
+  | KFunction | KMethod => i
+  end.
+
+Lemma parse_phase_ng_ret : forall style fl sc doc params returns,
+    DocParseNG.parse_phase_ng style fl sc = Ok (doc, params, returns) ->
+    returns = FNone \/ exists p, returns = Has p.
+Proof.
+  intros style fl sc doc params returns H. unfold DocParseNG.parse_phase_ng in H.
+  destruct (DocParseNG.afterward_index (DocParseNG.sc_args sc) 0) as [[|k]|]; cbv zeta in H;
+    (binv H; destruct a as [pairs req];
+     destruct (DocParseNG.retv_truthy (DocParseNG.sc_ret sc));
+     [binv H; destruct a as [rp is_list]; binv H; binv H; injection H as _ _ H; right; eexists; symmetry; exact H
+     |injection H as _ _ H; left; symmetry; exact H]).
+Qed.
+
+Lemma parse_ng_shape : forall style t i', DocParseNG.parse_ng style C01SpecNG.rt_flags t = Ok i' -> doc_shape i'.
+Proof.
+  intros style t i' H. unfold DocParseNG.parse_ng in H.
+  revert H. destruct (negb (forallb DocParseNG.in_alphabet t)); intros H; [discriminate H|].
+  revert H. destruct (DocParseNG.is_empty t); intros H; [injection H as H; subst i'; repeat split; left; reflexivity|].
+  binv H. binv H. destruct a0 as [[doc params] returns].
+  cbn [C01SpecNG.rt_flags DocParseNG.f_emit_default_prop bind] in H. injection H as H. subst i'.
+  repeat split. cbn [ir_returns].
+  destruct (parse_phase_ng_ret _ _ _ _ _ _ Ha0) as [E|[p E]]; subst returns; [left|right; eexists]; reflexivity.
+Qed.
+
+Lemma doc_shape_out : forall i i', doc_shape i' -> core_eq i i' -> i' = docstring_out i.
+Proof.
+  intros i [n t d ps r b] [Hn [Ht [Hb Hr]]] [Hd Hp Hnr _]. cbn [ir_name ir_type ir_doc ir_params ir_returns ir_internal] in *.
+  subst n t b d ps. unfold docstring_out. f_equal.
+  destruct Hr as [E|[g E]]; [exact E|]. exfalso. apply (Hnr g). exact E.
+Qed.
+
+Theorem conv_rest_closed : forall o i, closed_dom o i = true -> conv_rest i = Ok (docstring_out i).
+Proof.
+  intros o i H. destruct (closed_dom_inv o i H) as [_ [_ [Hg _]]].
+  destruct (C05Facts.RT_rest_roundtrip i Hg) as [i' [Hc Hp]]. rewrite Hc. f_equal.
+  apply doc_shape_out.
+  - unfold conv_rest in Hc. binv Hc. exact (parse_dot_shape _ _ _ _ _ Hc).
+  - apply (core_eq_of_preserved o i i' H Hp). apply internal_ok_None.
+    unfold conv_rest in Hc. binv Hc. exact (parse_dot_internal _ _ _ _ _ Hc).
+Qed.
+
+Theorem conv_ng_closed : forall o style i, closed_dom o i = true -> C01SpecNG.guard_C01_ng style i = true ->
+    conv_ng style i = Ok (docstring_out i).
+Proof.
+  intros o style i H Hg. destruct (conv_ng_roundtrip style i Hg) as [i' [Hc Hp]]. rewrite Hc. f_equal.
+  apply doc_shape_out.
+  - unfold conv_ng in Hc. binv Hc. exact (parse_ng_shape _ _ _ Hc).
+  - apply (core_eq_of_preserved o i i' H Hp). apply internal_ok_None.
+    unfold conv_ng in Hc. binv Hc. exact (parse_ng_internal _ _ _ _ Hc).
+Qed.
+
+Theorem conv_class_out : forall o i, closed_dom o i = true -> conv_class o i = Ok (class_out o i).
+Proof.
+  intros o i H. destruct (conv_class_closed o i H) as [[n t d ps r b] [Hc [[Hd Hp _ _] [Hn [Ht [Hr Hb]]]]]].
+  rewrite Hc. cbn [ir_name ir_type ir_doc ir_params ir_returns ir_internal] in *. subst. reflexivity.
+Qed.
+
+(* one pass in closed form: parse_k (emit_k i) = N_k i on the domain *)
+Theorem conv_model_closed : forall o k i, env_ok o = true -> closed_kind k = true -> closed_dom o i = true ->
+    conv_model o k i = Ok (out_model o k i).
+Proof.
+  intros o k i He Hk H. destruct k; try discriminate Hk; cbn [conv_model out_model].
+  - exact (conv_rest_closed o i H).
+  - apply (conv_ng_closed o); [exact H|apply (closed_dom_inv o i H)].
+  - apply (conv_ng_closed o); [exact H|apply (closed_dom_inv o i H)].
+  - exact (conv_class_out o i H).
+  - exact (conv_argparse_closed o i He H).
+Qed.
+
+Lemma out_model_core_eq : forall o k i, closed_kind k = true -> core_eq i (out_model o k i).
+Proof.
+  intros o k i Hk. destruct k; try discriminate Hk; constructor; try reflexivity; intros g E; discriminate E.
+Qed.
+
+(* the domain is closed under N_k, and N_k is idempotent (everywhere) *)
+Theorem out_model_closed : forall o k i, closed_kind k = true -> closed_dom o i = true ->
+    closed_dom o (out_model o k i) = true.
+Proof. intros o k i Hk H. exact (closed_dom_core_eq o i _ H (out_model_core_eq o k i Hk)). Qed.
+
+Theorem out_model_idem : forall o k i, out_model o k (out_model o k i) = out_model o k i.
+Proof. intros o k i. destruct k; reflexivity. Qed.
+
+Theorem out_model_preserved : forall o k i, closed_kind k = true -> closed_dom o i = true ->
+    preserved i (out_model o k i) = true.
+Proof. intros o k i Hk H. exact (core_eq_preserved o i _ H (out_model_core_eq o k i Hk)). Qed.
+
+(* the fixed point: the description one pass returns is returned unchanged by the next pass *)
+Theorem conv_model_fixpoint : forall o k i i1, env_ok o = true -> closed_kind k = true -> closed_dom o i = true ->
+    conv_model o k i = Ok i1 -> conv_model o k i1 = Ok i1.
+Proof.
+  intros o k i i1 He Hk H Hc. rewrite (conv_model_closed o k i He Hk H) in Hc. injection Hc as Hc. subst i1.
+  rewrite (conv_model_closed o k _ He Hk (out_model_closed o k i Hk H)). rewrite out_model_idem. reflexivity.
+Qed.
+
+Lemma conv_emit : forall o k i i', conv_model o k i = Ok i' -> exists t, emit_model o k i = Ok t.
+Proof.
+  intros o k i i' H. destruct k; cbn [conv_model emit_model] in *; try discriminate H.
+  - unfold conv_rest in H. binv H. rewrite Ha. eexists. reflexivity.
+  - unfold conv_numpydoc, conv_ng in H. binv H. rewrite Ha. eexists. reflexivity.
+  - unfold conv_google, conv_ng in H. binv H. rewrite Ha. eexists. reflexivity.
+  - unfold conv_class in H. binv H. binv H. rewrite Ha. cbn [bind]. rewrite Ha0. eexists. reflexivity.
+  - unfold conv_argparse in H. binv H. rewrite Ha. eexists. reflexivity.
+Qed.
+
+(* C08 for the closed kinds: the three emissions exist; second and third are the same artefact *)
+Theorem C08_closed_lemma : forall o k i, env_ok o = true -> closed_kind k = true -> closed_dom o i = true ->
+    C08_at o k i.
+Proof.
+  intros o k i He Hk H. pose proof (conv_model_closed o k i He Hk H) as H1.
+  pose proof (conv_model_fixpoint o k i _ He Hk H H1) as H2.
+  destruct (conv_emit o k i _ H1) as [t1 E1]. destruct (conv_emit o k _ _ H2) as [t2 E2].
+  exists t1, (out_model o k i), t2, (out_model o k i), t2. repeat split; assumption.
+Qed.
+
+(* along a chain: after any chain over the closed kinds, one more pass of any closed kind is already a fixed point *)
+Corollary C08_after_chain : forall o cs k i, env_ok o = true -> forallb closed_kind cs = true -> closed_kind k = true ->
+    closed_dom o i = true ->
+    exists i', chain (conv_model o) cs i = Ok i' /\ C08_at o k i'.
+Proof.
+  intros o cs k i He Hcs Hk H. destruct (chain_closed o cs He Hcs i H) as [i' [Hc [_ Hd]]].
+  exists i'. split; [exact Hc|]. exact (C08_closed_lemma o k i' He Hk Hd).
+Qed.
+
+(* for the docstring kinds and the class kind the first emission is already the fixed text: the emitters do not look at
+   what the description was parsed from *)
+Lemma rest_text_core : forall i i', core_eq i i' -> no_ret i -> rest_text_of i' = rest_text_of i.
+Proof.
+  intros i i' [Hd Hp Hr _] Hnr. unfold rest_text_of. rewrite Hd, Hp.
+  destruct (ir_returns i) as [| |g] eqn:E; [| |exfalso; apply (Hnr g); exact E];
+    (destruct (ir_returns i') as [| |g'] eqn:E'; [| |exfalso; apply (Hr g'); exact E']; reflexivity).
+Qed.
+
+Lemma ng_text_core : forall style i i', core_eq i i' -> no_ret i ->
+    C01SpecNG.text_of_o style i' = C01SpecNG.text_of_o style i.
+Proof.
+  intros style i i' [Hd Hp Hr _] Hnr. unfold C01SpecNG.text_of_o. rewrite Hd, Hp.
+  destruct (ir_returns i) as [| |g] eqn:E; [| |exfalso; apply (Hnr g); exact E];
+    (destruct (ir_returns i') as [| |g'] eqn:E'; [| |exfalso; apply (Hr g'); exact E']; reflexivity).
+Qed.
+
+Theorem docstring_text_fixed : forall o k i, env_ok o = true -> closed_dom o i = true ->
+    is_doc_kind k = true -> emit_model o k (out_model o k i) = emit_model o k i.
+Proof.
+  intros o k i He H Hk. pose proof (closed_dom_no_ret o i H) as Hnr.
+  destruct k; try discriminate Hk; cbn [emit_model out_model].
+  - rewrite (rest_text_core i (docstring_out i) (out_model_core_eq o KRest i eq_refl) Hnr). reflexivity.
+  - rewrite (ng_text_core _ i (docstring_out i) (out_model_core_eq o KRest i eq_refl) Hnr). reflexivity.
+  - rewrite (ng_text_core _ i (docstring_out i) (out_model_core_eq o KRest i eq_refl) Hnr). reflexivity.
+Qed.
+
+(* ------------------------------------------------------------------ 8. the domain is inhabited; why its conjuncts *)
+
+Lemma w_closed_in_dom : closed_dom default_env w_closed = true /\ List.length (ir_params w_closed) = 5.
+Proof. vm_compute. split; reflexivity. Qed.
+
+Definition env_edd : cenv :=
+  mkCE 100 true true [] (L "ConfigClass") [L "object"] [] false false
+       true (L "set_cli_args") (fun _ => L "Doc.") (fun _ => C04Codec.empty_doc_ir) None None.
+
+Lemma w_closed_in_dom_edd : closed_dom env_edd w_closed = true.
+Proof. vm_compute. reflexivity. Qed.
+
+Definition sample_chain : list kind := [KClass; KGoogle; KArgparse; KRest; KClass; KArgparse; KArgparse; KNumpydoc].
+
+Lemma sample_chain_runs :
+  match chain (conv_model default_env) sample_chain w_closed with
+  | Ok i' => preserved w_closed i' && closed_dom default_env i'
+  | Err _ => false
+  end = true.
+Proof. vm_compute. reflexivity. Qed.
+
+(* after the argparse conversion the description carries the remnant: it is outside guard_C02_ast and guard_C04_ast,
+   the guards of C02_partial_closed and C04_partial, although the next class / argparse conversion succeeds *)
+Lemma guards_not_closed_under_argparse :
+  match conv_argparse default_env w_closed with
+  | Ok i' => negb (guard_C02_ast i') && negb (guard_C04_ast i') && guard_C02_ast w_closed && guard_C04_ast w_closed
+             && internal_ok i' && closed_dom default_env i'
+  | Err _ => false
+  end = true.
+Proof. vm_compute. reflexivity. Qed.
